@@ -1,4 +1,4 @@
-From MS Require Import lib.Base extract.Run extract.RunDisc extract.RunProps extract.RunE2E.
+From MS Require Import lib.Base extract.Run extract.RunDisc extract.RunProps extract.RunE2E extract.RunCloud extract.RunCli.
 Open Scope Z_scope.
 
 Definition run (fid : Z) (a : list (list Z)) : out :=
@@ -12,8 +12,10 @@ Definition run (fid : Z) (a : list (list Z)) : out :=
   match run_disc fid a with Some o => o | None =>
   match run_props fid a with Some o => o | None =>
   match run_e2e fid a with Some o => o | None =>
+  match run_cloud fid a with Some o => o | None =>
+  match run_cli fid a with Some o => o | None =>
   (-1, [])
-  end end end end end end end end end end.
+  end end end end end end end end end end end end.
 
 (* in-kernel cross-check of the extracted evaluator: every recorded (fid, args, result) triple must be
    reproduced by vm_compute *)
